@@ -172,9 +172,14 @@ pub fn export_cmd(dir: &str) -> i32 {
     }
     // whatever this back end manages to load, through whichever entry point and from whichever input form,
     // it exports as "PKCS#8": the other back end must be able to take every such export
-    for z in zoo.iter().filter(|z| !z.kind.is_slow() && z.name.contains("_1")) {
+    // the large RSA keys (signing cost): one automatic and one explicit-algorithm entry point, one digest; 8192 bits in the thorough tier
+    let all_slow = std::env::var("VERIF_C16_SLOW").map(|v| v == "all").unwrap_or(false);
+    for z in zoo.iter().filter(|z| z.name.contains("_1") && (!z.kind.is_slow() || all_slow || z.kind == KeyKind::Rsa6144)) {
         for e in super::c11::ENTRIES {
-            let algs: Vec<Option<Alg>> = if e.takes_alg() { backend_algs().into_iter().filter(|a| z.kind.fits(*a)).map(Some).collect() } else { vec![None] };
+            if z.kind.is_slow() && !matches!(e, super::c11::Entry::TryFromSlice | super::c11::Entry::FromDerAlg) {
+                continue;
+            }
+            let algs: Vec<Option<Alg>> = if e.takes_alg() { backend_algs().into_iter().filter(|a| z.kind.fits(*a) && (!z.kind.is_slow() || *a == Alg::RsaSha256)).map(Some).collect() } else { vec![None] };
             for a in algs {
                 if let Ok(Ok(kp)) = super::c11::load(e, &z.der, z.format, a) {
                     let Some(alg) = alg_of(kp.algorithm()) else { continue };
@@ -183,8 +188,10 @@ pub fn export_cmd(dir: &str) -> i32 {
                     std::fs::write(format!("{}.key.pem", stem), kp.serialize_pem()).unwrap();
                     std::fs::write(format!("{}.pub.der", stem), kp.public_key_der()).unwrap();
                     // and what the key signs in this back end: the other back end must accept it
-                    if let Ok(csr) = rcgen::CertificateParams::default().serialize_request(&kp) {
-                        std::fs::write(format!("{}.csr.der", stem), csr.der()).unwrap();
+                    match guarded(|| rcgen::CertificateParams::default().serialize_request(&kp)) {
+                        Ok(Ok(csr)) => std::fs::write(format!("{}.csr.der", stem), csr.der()).unwrap(),
+                        Ok(Err(e)) => std::fs::write(format!("{}.csr.failed", stem), format!("error {:?}", e)).unwrap(),
+                        Err(p) => std::fs::write(format!("{}.csr.failed", stem), format!("panic {}", p)).unwrap(),
                     }
                 }
             }
@@ -343,6 +350,7 @@ pub fn run(prop: &str, tier: &str, replay: Option<&str>) -> i32 {
         let sec = Section::new("interop/key-export-import", "keys of every algorithm (generated, and every fixture key x input form x loading entry point that the exporter accepts) exported (PKCS#8 DER and PEM) by the aws-lc-rs build load in this (ring) build and vice versa, with the public key OpenSSL derives and the same algorithm; a CSR signed with the imported key verifies (signature interop of artefacts is C01's: every artefact there is verified by OpenSSL, ring and aws-lc-rs)");
         for (from, to) in [("aws", "ring"), ("ring", "aws")] {
             let dir = scratch.join(format!("keys-from-{}", from));
+            std::env::set_var("VERIF_C16_SLOW", if thorough { "all" } else { "6144" });
             if let Err(e) = run_bin(from, &["C16-export", dir.to_str().unwrap()]) {
                 rep.machinery_error(e);
                 continue;
@@ -380,11 +388,42 @@ pub fn import_cmd(dir: &str, out: &str) -> i32 {
         let stem = n.trim_end_matches(".key.der").to_string();
         let alg_name = stem.split('~').next().unwrap_or("").to_string();
         let Some(alg) = ALL_ALGS.iter().copied().find(|a| a.name() == alg_name) else { continue };
-        // a fixture of a size/curve this back end does not take at all is not a common key
+        // a key the exporter loaded signs there
+        if let Ok(why) = std::fs::read_to_string(format!("{}/{}.csr.failed", dir, stem)) {
+            lines.push_str(&format!("{}\tthe exporter could not sign a request with a key it loaded: {}\n", stem, why.chars().take(160).collect::<String>()));
+            continue;
+        }
+        // a fixture of a size/curve this back end does not take at all is not a common key: what the exporter signed
+        // with it is still an artefact that must verify here (this back end's verifier and OpenSSL, against the public
+        // key OpenSSL derives from the exported private key)
         if let Some(fixture) = stem.split('~').nth(1) {
             let zoo = load_zoo();
             if let Some(z) = zoo.iter().find(|z| z.name == fixture) {
                 if !z.kind.backend_kind_ok() {
+                    let verdict = (|| -> Result<(), String> {
+                        let der = std::fs::read(format!("{}/{}", dir, n)).map_err(|e| e.to_string())?;
+                        let ossl = super::c11::ossl_private(&der)?;
+                        let spki = ossl.public_key_to_der().map_err(|e| e.to_string())?;
+                        let pubder = std::fs::read(format!("{}/{}.pub.der", dir, stem)).map_err(|e| e.to_string())?;
+                        if pubder != spki {
+                            return Err("public key differs from OpenSSL's".into());
+                        }
+                        let foreign = std::fs::read(format!("{}/{}.csr.der", dir, stem)).map_err(|e| format!("no request from the exporter: {}", e))?;
+                        let abs = refmodel::x509::decode_csr(&foreign).value.ok_or("undecodable CSR from the exporter")?;
+                        if abs.spki_raw != spki {
+                            return Err("the request carries another public key".into());
+                        }
+                        let mut f = Vec::new();
+                        super::c01::verify_all(alg, &KeyPub { alg, raw: z.raw_pub.clone() }, &abs.cri_raw, &abs.sig, "csr signed by the exporter (key only it loads)", &mut f);
+                        if let Some(x) = f.first() {
+                            return Err(format!("{}", x));
+                        }
+                        Ok(())
+                    })();
+                    lines.push_str(&format!("{}\t{}\n", stem, match verdict {
+                        Ok(()) => "OK".to_string(),
+                        Err(e) => e,
+                    }));
                     continue;
                 }
             }
